@@ -205,6 +205,7 @@ GOOD = {
 }
 ANY = [{'o': 'a'}, {'o': 'b'}, {'o': 'c'}, {'o': 'd'}, 0, 7, 'x', True, None]
 PNAMES = ['p', 'q', 'r', 's', 'long_name', 'k']
+ALIASES = {'long_name': 'longName', 'p': 'pAlias', 'q': 'q_', 'k': 'key'}
 
 
 @st.composite
@@ -218,6 +219,10 @@ def definition(draw, tag, layer):
         t = draw(st.sampled_from(TYPES))
         p = {'name': names.pop(0), 'type': t,
              'nullable': draw(st.sampled_from([False, False, True]))}
+        if draw(st.integers(0, 2)) == 0:
+            # published keyword differs from the python name (convention
+            # translation or an explicit alias)
+            p['alias'] = ALIASES.get(p['name'], p['name'] + 'X')
         if draw(st.integers(0, 5)) == 0 and not (
                 kind != 'function' and i == 0):
             p['lazy'] = True
@@ -252,6 +257,11 @@ def definition(draw, tag, layer):
     for _ in range(draw(st.sampled_from([0, 0, 0, 1, 2]))):
         p = {'name': names.pop(), 'type': draw(st.sampled_from(TYPES)),
              'nullable': draw(st.booleans()), 'kwonly': True}
+        if draw(st.integers(0, 2)) == 0:
+            p['alias'] = ALIASES.get(p['name'], p['name'] + 'X')
+        if draw(st.integers(0, 5)) == 0:
+            p['lazy'] = True
+            p['nullable'] = True
         if draw(st.integers(0, 3)) > 0:
             p['default'] = draw(st.sampled_from(GOOD[p['type']] + [None]))
         d['params'].append(p)
@@ -326,7 +336,7 @@ def family_and_call(draw):
     for p in kwo:
         if 'default' in p and draw(st.booleans()):
             continue
-        kwargs.append([p['name'], val(p)])
+        kwargs.append([p.get('alias', p['name']), val(p)])
     if draw(st.integers(0, 5)) == 0:
         args.append(val({'type': d.get('varargs') or 'obj'}))
     if draw(st.integers(0, 7)) == 0:
@@ -359,9 +369,13 @@ def family_and_call(draw):
 def _biased():
     # the >=2-simultaneous-matches families of C06, judged by the rules
     from vf.props import c06
-    return c06.biased_family().map(lambda c: {
-        'kind': 'call', 'family': c['family'],
-        'call': dict(c['call'], via='text')})
+    # (mapping-style arguments with non-keyword keys are C06's business;
+    # the rules model has no notion of them)
+    return c06.biased_family().filter(
+        lambda c: not any(isinstance(a, dict) and 'raw' in a
+                          for a in c['call'].get('args', []))).map(
+        lambda c: {'kind': 'call', 'family': c['family'],
+                   'call': dict(c['call'], via='text')})
 
 
 def _shard(run, n, shard):
